@@ -63,7 +63,7 @@ Lemma is_construct_parts m : is_construct m = true ->
 Proof.
   unfold is_construct. intros H. split_andb H.
   apply str_eqb_eq in H. split; [exact H|]. split; [assumption|].
-  unfold has_body, body_stmts in *. destruct (r_body m) as [l| |]; try discriminate.
+  unfold has_body, body_stmts in *. destruct (r_body m) as [l| | |]; try discriminate.
   exists l. split; [reflexivity|].
   destruct (last l (SReturn ENil)) as [| | | |e]; try discriminate.
   destruct e; try discriminate. match goal with H : str_eqb _ _ = true |- _ => apply str_eqb_eq in H; subst end. reflexivity.
@@ -168,14 +168,14 @@ Section Forms.
     (* function form *)
     assert (Hbf : r_body fr = Body [SReturn (ECallMeth ENewStatement X (own_args (r_params m)))]).
     { match goal with H : is_func_form fr = true |- _ => unfold is_func_form in H; rename H into Hff end.
-      destruct (r_body fr) as [l| |]; try discriminate.
+      destruct (r_body fr) as [l| | |]; try discriminate.
       destruct l as [|[| | | |e] l]; try discriminate.
       destruct e; try discriminate. destruct e; try discriminate. destruct l; try discriminate.
       apply andb_true_iff in Hff. destruct Hff as [Hq1 Hq2]. apply str_eqb_eq in Hq1.
       apply (list_eqb_eq _ simple_eqb_eq) in Hq2. rewrite Hnf in Hq1. rewrite Hpf in Hq2. subst. reflexivity. }
     (* Group form *)
     match goal with H : is_group_form gr = true |- _ => unfold is_group_form in H; rename H into Hgf end.
-    destruct (r_body gr) as [l| |] eqn:Hbg; try discriminate.
+    destruct (r_body gr) as [l| | |] eqn:Hbg; try discriminate.
     destruct l as [|[x e| | | |] l]; try discriminate.
     destruct e; try discriminate.
     destruct l as [|[| |g e| |] l]; try discriminate.
@@ -482,7 +482,7 @@ Section Once.
     split_andb Hk.
     repeat match goal with Hx : (_ =? _) = true |- _ => apply Nat.eqb_eq in Hx end.
     destruct fuel as [|n]; [discriminate|]. cbn [call] in H. rewrite Hf in H.
-    unfold body_stmts in *. destruct (r_body r) as [l| |]; try discriminate.
+    unfold body_stmts in *. destruct (r_body r) as [l| | |]; try discriminate.
     destruct (bind_params (r_params r) args) as [en0|]; [|discriminate].
     match goal with Hx : cb_sites l = _ |- _ => rewrite <- Hx end.
     eapply exec_log; eassumption.
@@ -631,7 +631,7 @@ Lemma plain_group_shape_inv r fe : plain_group_shape r = Some fe ->
     r_params r = pre ++ [pv] /\ pre = removelast (r_params r) /\ is_variadic pv = true /\ forallb is_plain pre = true /\
     forallb (field_ok (names pre)) fe = true.
 Proof.
-  unfold plain_group_shape. intros H. destruct (r_body r) as [l| |] eqn:Hb; try discriminate.
+  unfold plain_group_shape. intros H. destruct (r_body r) as [l| | |] eqn:Hb; try discriminate.
   dvars H.
   match type of H with (if ?c then _ else _) = _ => destruct c eqn:Hc; [|discriminate] end.
   injection H as <-. split_andb Hc.
@@ -653,7 +653,7 @@ Lemma func_group_shape_inv r fe : func_group_shape r = Some fe ->
     r_params r = pre ++ [pf] /\ pre = removelast (r_params r) /\ is_func pf = true /\ forallb is_plain pre = true /\
     forallb (field_ok (names pre)) fe = true.
 Proof.
-  unfold func_group_shape. intros H. destruct (r_body r) as [l| |] eqn:Hb; try discriminate.
+  unfold func_group_shape. intros H. destruct (r_body r) as [l| | |] eqn:Hb; try discriminate.
   dvars H.
   match type of H with (if ?c then _ else _) = _ => destruct c eqn:Hc; [|discriminate] end.
   injection H as <-. split_andb Hc.
@@ -795,7 +795,7 @@ Lemma token_shape_inv r ty c : token_shape r = Some (ty, c) ->
   exists t, r_body r = Body [SDefine t (EToken ty c); SAppendSelf (r_self r) [EVar t]; SReturn (EVar (r_self r))] /\
             mem t (r_self r :: names (r_params r)) = false.
 Proof.
-  unfold token_shape. intros H. destruct (r_body r) as [l| |] eqn:Hb; try discriminate.
+  unfold token_shape. intros H. destruct (r_body r) as [l| | |] eqn:Hb; try discriminate.
   dvars H.
   match type of H with (if ?c then _ else _) = _ => destruct c eqn:Hc; [|discriminate] end.
   injection H as <- <-. split_andb Hc.
@@ -887,13 +887,13 @@ Proof.
 Qed.
 
 (* ------------------------------------------------------------------ api_wf, unpacked *)
-Lemma api_wf_parts tbl ff gs : api_wf tbl ff gs = true -> rows_wf tbl = true /\ ff = [] /\ gs = [].
+Lemma api_wf_parts tbl sts ff gs : api_wf tbl sts ff gs = true -> rows_wf tbl = true /\ ff = [] /\ gs = [].
 Proof.
   unfold api_wf. intros H. split_andb H. split; [exact H|].
   destruct ff; [|discriminate]. destruct gs; [|discriminate]. auto.
 Qed.
 
-Lemma api_wf_named tbl ff gs : api_wf tbl ff gs = true ->
+Lemma api_wf_named tbl sts ff gs : api_wf tbl sts ff gs = true ->
   forall recv name, In (recv, name) named_callback_apis ->
   exists r, find_row tbl recv name = Some r /\ has_cb r = true.
 Proof.
@@ -903,7 +903,7 @@ Proof.
 Qed.
 
 (* Render(w) = RenderWithFile(w, NewFile("")) in the source, for *Statement and *Group *)
-Lemma api_wf_render tbl ff gs : api_wf tbl ff gs = true ->
+Lemma api_wf_render tbl sts ff gs : api_wf tbl sts ff gs = true ->
   forall recv, recv = s_Statement \/ recv = s_Group ->
   exists r w, find_row tbl recv (S "Render") = Some r /\ r_params r = [w] /\
     r_body r = Body [SReturn (ECallMeth (EVar (r_self r)) (S "RenderWithFile") [EVar (p_name w); ECallFn (S "NewFile") [EStr []]])].
@@ -922,10 +922,80 @@ Proof.
   { destruct Hrecv; subst; [rewrite str_eqb_refl; reflexivity | rewrite str_eqb_refl; apply orb_true_r]. }
   rewrite Hor in Hd. simpl in Hd. unfold render_delegates in Hd.
   destruct (r_params r) as [|w [|]] eqn:Hp; try discriminate.
-  destruct (r_body r) as [l| |] eqn:Hb; try discriminate.
+  destruct (r_body r) as [l| | |] eqn:Hb; try discriminate.
   dvars Hd. split_andb Hd.
   repeat match goal with Hx : str_eqb _ _ = true |- _ => apply str_eqb_eq in Hx end. subst.
   exists r, w. auto.
+Qed.
+
+(* GoString() renders into a new buffer with the receiver's OWN Render (the type has a Render
+   row of its own, so that is the method `x.Render` selects), panics on error and returns the
+   text: for *Statement, *Group and *File *)
+Lemma api_wf_gostring tbl sts ff gs : api_wf tbl sts ff gs = true ->
+  forall recv, In recv gostring_recvs ->
+  exists r b rr, find_row tbl recv s_GoString = Some r /\ r_params r = [] /\ r_ret r = S "string" /\
+    r_body r = BufString b (ECallMeth (EVar (r_self r)) s_Render [EVar b]) /\ b <> r_self r /\
+    find_row tbl recv s_Render = Some rr.
+Proof.
+  unfold api_wf. intros H recv Hin. split_andb H.
+  match goal with Hx : gostring_ok tbl = true |- _ => unfold gostring_ok in Hx; rewrite forallb_forall in Hx; specialize (Hx _ Hin); rename Hx into Hg end.
+  apply andb_true_iff in Hg. destruct Hg as [Hr Hg]. unfold has_row in Hr.
+  destruct (find_row tbl recv s_Render) as [rr|]; [|discriminate].
+  destruct (find_row tbl recv s_GoString) as [r|]; [|discriminate].
+  unfold gostring_delegates in Hg.
+  destruct (r_params r) as [|? ?] eqn:Hp; [|discriminate].
+  destruct (r_body r) as [l| | |b c] eqn:Hb; try discriminate.
+  destruct c; try discriminate.
+  match goal with Hx : context [ECallMeth ?c _ ?l] |- _ => destruct c; try discriminate; destruct l as [|a [|? ?]]; try discriminate; destruct a; try discriminate end.
+  split_andb Hg.
+  repeat match goal with Hx : str_eqb _ _ = true |- _ => apply str_eqb_eq in Hx end.
+  match goal with Hx : negb (str_eqb _ _) = true |- _ => apply negb_true_iff in Hx; apply str_eqb_neq in Hx; rename Hx into Hne end.
+  subst. exists r, b, rr. repeat split; auto.
+Qed.
+
+(* only package functions and the methods of *Statement and *Group return *Statement *)
+Lemma returns_stmt_recv tbl r : rows_wf tbl = true -> In r tbl -> returns_stmt r = true ->
+  r_recv r = [] \/ r_recv r = s_Statement \/ r_recv r = s_Group.
+Proof.
+  intros Hwf Hin Hret. pose proof (rows_wf_row _ _ Hwf Hin) as Hr. unfold row_ok in Hr.
+  apply andb_true_iff in Hr. destruct Hr as [_ Hr]. rewrite Hret in Hr.
+  apply mem_In in Hr. unfold builder_recvs in Hr. simpl in Hr.
+  destruct Hr as [E|[E|[E|[]]]]; auto.
+Qed.
+
+(* PROMOTED FORMS ARE NOT SHADOWED.  B is Group or Statement and T another struct type that
+   embeds B (directly or through other embedded fields): then no type U that T embeds at any
+   depth, nor T itself, other than B, has a method or a field named like a form of B (a method
+   of B that returns *Statement) - so nothing can be selected instead of B's method when one writes
+   t.M(..) - and every such U is a struct type of the package or Statement, the types all of whose
+   methods and fields the table lists *)
+Lemma no_shadow_sound tbl sts ff gs : api_wf tbl sts ff gs = true ->
+  forall B, B = s_Group \/ B = s_Statement ->
+  forall T, In T (map t_name sts) -> reaches sts B T = true ->
+  forall U, In U (cone_of sts T) -> U <> B ->
+    known_type sts U = true /\
+    forall M r, find_row tbl B M = Some r -> returns_stmt r = true ->
+      find_row tbl U M = None /\ ~ In M (fields_of sts U).
+Proof.
+  unfold api_wf. intros H B HB T HT Hreach U HU Hne. split_andb H.
+  match goal with Hx : no_shadow tbl sts = true |- _ => unfold no_shadow in Hx; rewrite forallb_forall in Hx; rename Hx into Hs end.
+  assert (HinB : In B [s_Group; s_Statement]) by (destruct HB; subst; simpl; auto).
+  specialize (Hs _ HinB). rewrite forallb_forall in Hs.
+  apply in_map_iff in HT. destruct HT as [st [Hst Hin]]. specialize (Hs _ Hin).
+  rewrite Hst, Hreach in Hs. unfold promotes_ok in Hs. rewrite forallb_forall in Hs.
+  specialize (Hs _ HU). apply orb_true_iff in Hs. destruct Hs as [Hs|Hs].
+  { apply str_eqb_eq in Hs. contradiction. }
+  apply andb_true_iff in Hs. destruct Hs as [Hk Hs]. split; [exact Hk|].
+  intros M r Hf Hret. rewrite forallb_forall in Hs.
+  destruct (find_row_some _ _ _ _ Hf) as [Hinr [Hrc Hn]].
+  assert (HM : In M (form_names tbl B)).
+  { unfold form_names. apply in_map_iff. exists r. split; [exact Hn|].
+    apply filter_In. split; [exact Hinr|]. rewrite Hrc, str_eqb_refl, Hret. reflexivity. }
+  specialize (Hs _ HM). apply negb_true_iff in Hs. unfold declares in Hs.
+  apply orb_false_iff in Hs. destruct Hs as [Hs1 Hs2].
+  split.
+  - destruct (find_row tbl U M); [discriminate|reflexivity].
+  - intros Hc. apply mem_In in Hc. congruence.
 Qed.
 
 (* ------------------------------------------------------------------ entry points in the model *)
@@ -1036,6 +1106,6 @@ Section Summary.
   Proof.
     intros Hwf Hin Hcb. pose proof (rows_wf_row _ _ Hwf Hin) as Hr. unfold row_ok in Hr. split_andb Hr.
     rewrite Hcb in *. rewrite orb_true_r in *. unfold has_body in *.
-    destruct (r_body r) as [l| |]; try discriminate. eauto.
+    destruct (r_body r) as [l| | |]; try discriminate. eauto.
   Qed.
 End Summary.
